@@ -365,6 +365,17 @@ retry:
             auto in_range = [&full_key, &tuple_list, &vp, &node_version_vec,
                              &v_at_fb, &node_version_ptr, &tuple_pushed_num,
                              max_size]() {
+                if (!tuple_list.empty() &&
+                    full_key <= std::get<0>(tuple_list.back())) {
+                    /**
+                     * This key lies in the part of the range the scan has already
+                     * covered. That happens if the border which held it was emptied and
+                     * unlinked after the scan had left it and the key was inserted again:
+                     * it then lands in this, the right neighbour. Keep what was returned
+                     * for the covered part, the result must stay strictly ascending.
+                     */
+                    return status::OK;
+                }
                 tuple_list.emplace_back(std::make_tuple(
                         full_key, static_cast<ValueType*>(value::get_body(vp)),
                         value::get_len(vp)));
